@@ -77,7 +77,15 @@ def gen_calendar(rng, tidy=True):
             text = text.replace("SUMMARY:", "SUMMARY:" + "y" * rng.choice([1020, 1024, 1500, 3000]), 1)
             cls.add("long-line")
         elif r < 0.8:
-            text = text.replace(nl, nl + nl, rng.randint(1, 3))
+            if rng.random() < 0.5:
+                text = text.replace(nl, nl + nl, rng.randint(1, 3))
+            else:
+                # an empty line that is continued: the fold's newline belongs to a line with nothing on it
+                k = rng.randint(1, max(1, text.count(nl) - 1))
+                parts = text.split(nl)
+                parts[k:k] = ["" if rng.random() < 0.7 else rng.choice([" ", "\t"])]
+                parts[k + 1] = rng.choice([" ", "\t"]) + parts[k + 1]
+                text = nl.join(parts)
             cls.add("empty-line")
         elif r < 0.9:
             text = text[:rng.randint(1, len(text) - 1)]
@@ -146,7 +154,7 @@ def run(ctx):
             continue
         if a != first[idx][1]:
             cls = inputs[idx][1]
-            kf = cls & {"backslash", "after-end", "long-line", "empty-line", "truncated", "garbage"}
+            kf = cls & {"backslash", "long-line"} if not (cls & {"after-end", "truncated", "garbage"}) else cls & {"backslash", "after-end", "long-line", "truncated", "garbage"}
             if kf:
                 for k in kf:
                     known[k] += 1
